@@ -179,9 +179,15 @@ func (ctxt *CredentialHelperContext) GetCredentialHelper(helper CredentialHelper
 		}
 	}
 
-	ctxt.commandCredHelper.protectProtocol = ctxt.urlConfig.Bool("credential", rawurl, "protectProtocol", true)
+	// The protocol protection setting is specific to this URL, while the
+	// context's command helper is shared by every wrapper handed out, so
+	// give this wrapper a command helper of its own.
+	commandCredHelper := &commandCredentialHelper{
+		SkipPrompt:      ctxt.commandCredHelper.SkipPrompt,
+		protectProtocol: ctxt.urlConfig.Bool("credential", rawurl, "protectProtocol", true),
+	}
 
-	return CredentialHelperWrapper{CredentialHelper: NewCredentialHelpers(append(helpers, ctxt.commandCredHelper)), Input: input, Url: u}
+	return CredentialHelperWrapper{CredentialHelper: NewCredentialHelpers(append(helpers, commandCredHelper)), Input: input, Url: u}
 }
 
 // AskPassCredentialHelper implements the CredentialHelper type for GIT_ASKPASS
